@@ -6,3 +6,5 @@ package scheduler
 func verifYield(string, interface{}) {}
 
 func verifNote(string, interface{}) {}
+
+func verifInit(*Scheduler) {}
